@@ -579,15 +579,22 @@ class FxpPow(_Fxp):
 
     def configs(self, tier):
         return [dict(mode="plain", kind="none", res=r, bits=2 * r + 4, k=k, **({"raises_only": True} if k < 0 else {}))
-                for r in RES for k in (-1, 0, 1, 2)]
+                for r in RES for k in (-1, 0, 1, 2)] + [dict(mode="plain", kind="none", res=3, bits=10, k=2, mod=5, raises_only=True)]
+
+    raises_unspecified = False
+
+    def raises(self, c, x, k, mod=None):
+        return [(ValueError, bool(mod is not None or k < 0))]
 
     def setup(self, c, cfg):
         apply_mode(c, cfg["mode"], bitlength=cfg["bits"])
         c.w.modules["pysnark.fixedpoint"].resolution = cfg["res"]
         self._x = c.mk_fxp(c.operand("x"))
+        if "mod" in cfg:
+            return c.LinCombFxp.__pow__, (self._x, cfg["k"], cfg["mod"]), {}
         return c.LinCombFxp.__pow__, (self._x, cfg["k"]), {}
 
-    def post(self, c, r, x, k):
+    def post(self, c, r, x, k, mod=None):
         R = 1 << c.cfg["res"]
         X = c.v(x)
         ok = isinstance(r, c.LinCombFxp)
